@@ -109,7 +109,18 @@ def arr(x, sched="synchronous"):
     return x
 
 
-def compare(r_np, r_da, op, sched, what):
+def shift_size(args):
+    """largest |shift| among the arguments of a shift-type operation (0 otherwise): the two backends build their frequency grids with
+    functions that differ in the last bit (da.fft.fftfreq / np.fft.fftfreq), which the phase ramp multiplies by the shift"""
+    v = args.get("vals") if isinstance(args, dict) else None
+    try:
+        return float(np.max(np.abs(np.asarray(v, dtype=float)))) if v is not None else 0.0
+    except (TypeError, ValueError):
+        return 0.0
+
+
+def compare(r_np, r_da, op, sched, what, args=None):
+    arg_magnitude = shift_size(args)
     import dask.array as da
     import pulsarbat as pb
 
@@ -142,7 +153,7 @@ def compare(r_np, r_da, op, sched, what):
         eps = np.finfo(a.dtype).eps if a.dtype.kind in "fc" else 0
         scale = float(np.max(np.abs(b)))
         d = float(np.max(np.abs(a - b)))
-        tol = 8 * eps * (1 + np.log2(max(b.shape[0], 2))) * scale
+        tol = 8 * eps * (1 + np.log2(max(b.shape[0], 2))) * scale * (1 + arg_magnitude)
         check(d <= tol, "{}: computed values differ from the NumPy-backed result by {:.3g} (tol {:.3g})", what, d, tol)
 
 
@@ -205,7 +216,7 @@ def run_dask(case, stt, sched=None):
         check(isinstance(r_da.data, da.Array), "{}: result of a Dask-backed signal is backed by {}", what, type(r_da.data).__name__)
         if op.name != "persist" and not (op.name == "time_shift" and r_da is z_da):
             check(built == 0, "{}: building the result computed the input graph {} time(s) -- not lazy", what, built)
-    compare(r_np, r_da, op, sched, what)
+    compare(r_np, r_da, op, sched, what, args=case.get("args"))
     if sched != "processes" and z_da.data.size:
         check(COUNTER["n"] >= 1, "harness: sentinel never ran")
     nchunks = [len(c) for c in case["chunks"]]
@@ -288,7 +299,7 @@ def run_joint(case, stt):
                 o, b = np.where(fin, o, 0), np.where(fin, b, 0)
             eps = np.finfo(o.dtype).eps if o.dtype.kind in "fc" else 0
             d = float(np.max(np.abs(o - b)))
-            tol = 0 if op.exact else 8 * eps * (1 + np.log2(max(b.shape[0], 2))) * float(np.max(np.abs(b)))
+            tol = 0 if op.exact else 8 * eps * (1 + np.log2(max(b.shape[0], 2))) * float(np.max(np.abs(b))) * (1 + shift_size(arglist[i]))
             check(d <= tol, "{}: differs from its NumPy-backed result by {:.3g} (tol {:.3g})", what, d, tol)
     stt.nt(len(set(C and str(arglist[i]) for i in idx)) >= 2)
     stt.label("op_" + op.name)
